@@ -543,7 +543,7 @@ var clauseKeywords = map[string]bool{
 	"uses": true, "prop": true, "trusted": true, "invariant": true, "panics_when": true, "inline": true,
 	"induction": true, "trigger": true, "expect": true, "fuel": true, "exempt": true, "cover": true, "nopanic": true, "uses_post": true, "panic_requires": true,
 }
-var declKeywords = map[string]bool{"spec": true, "lemma": true, "ghost": true, "func": true, "loop": true, "pred": true, "effects": true, "package-effects": true, "argorder": true}
+var declKeywords = map[string]bool{"spec": true, "lemma": true, "ghost": true, "func": true, "loop": true, "pred": true, "effects": true, "package-effects": true, "argorder": true, "callorder": true}
 
 // parseSpecText parses the concatenated //@ lines of one package.
 func parseSpecText(pkg string, lines []string) (sf *SpecFile, err error) {
@@ -672,6 +672,15 @@ func parseSpecText(pkg string, lines []string) (sf *SpecFile, err error) {
 				panic(fmt.Errorf("spec: argorder <property> <function> <method> <name> <name> ..."))
 			}
 			sf.ArgOrders = append(sf.ArgOrders, ArgOrderDecl{Prop: fs[0], Func: pkg + "." + fs[1], Method: fs[2], Names: fs[3:]})
+		case "callorder":
+			// callorder <property[,property]> <function> f g h ...: in <function> (and the function literals in it) each of f, g, h
+			// is called and every call of a later one is dominated by a call of the one before it
+			curF, curL, curLoop, curS = nil, nil, nil, nil
+			fs := strings.Fields(it.text)
+			if len(fs) < 4 {
+				panic(fmt.Errorf("spec: callorder <property> <function> <callee> <callee> ..."))
+			}
+			sf.ArgOrders = append(sf.ArgOrders, ArgOrderDecl{Calls: true, Prop: fs[0], Func: pkg + "." + fs[1], Names: fs[2:]})
 		case "package-effects":
 			curF, curL, curLoop, curS = nil, nil, nil, nil
 			sf.Effects = append(sf.Effects, EffectDecl{Key: "package:" + pkg, Effects: strings.Fields(it.text)})
